@@ -12,61 +12,126 @@
 (* otherwise <<target, used>> names the first type that got another type's index.                 *)
 (* HistoryFree: the outcome of Present(t) is a function of t only (always "own").                 *)
 EXTENDS Integers, Sequences, FiniteSets, TLC
-CONSTANTS KeyedBy, MaxHist
+CONSTANTS KeyedBy, MaxHist, GraphLen, IndexMemo
+(* Type GRAPHS (follow-up, round 6).  Besides the name family (same short name in two packages, anonymous types, types    *)
+(* nested in other targets) the menu holds a graph family: struct types that embed pointers to EACH OTHER (GA/GB, the      *)
+(* three-cycle HA/HB/HC, the anonymous Anon4 that embeds *GA), mutually recursive member types (MA has []*MB, MB has       *)
+(* map[string]*MA), a type that is an embedded part of other targets and a target of its own (A.EI in EO by value, in EP by   *)
+(* pointer), a same-named type of another package embedded (EQ embeds B.EI), an anonymous struct with an anonymous member   *)
+(* (Anon3 holds an Anon1).  The member index of a type (the set of members a composer offers: own members plus the          *)
+(* members promoted through embedded structs, cut where an embedding cycle closes) is a function of the type alone:         *)
+(* Members(t, {}).  IndexMemo = "bytype" models an implementation that keeps indexes in a table keyed by type and fills it  *)
+(* from nested walks as well (where the cycle cut depends on the context): the design check shows that HistoryFree rejects  *)
+(* it (prediction); IndexMemo = "none" is the specification.                                                                *)
+(* Histories: every sequence over the name family up to MaxHist; over the graph family every sequence up to GraphLen and,   *)
+(* inside one group of related types, up to GraphLen + 1: every set of targets is presented in every order.                 *)
 
-Types == {"A.T", "B.T", "Anon1", "Anon2", "A.U", "A.V", "A.V1", "A.W"}
-Short(t) == CASE t \in {"A.T", "B.T"} -> "T" [] t \in {"Anon1", "Anon2"} -> "" [] t = "A.U" -> "U" [] t = "A.V" -> "V"
-              [] t = "A.V1" -> "V1" [] t = "A.W" -> "W"
-Full(t) == IF t \in {"Anon1", "Anon2"} THEN "/" ELSE t
-\* struct types reached through the fields of t (element types of slices, arrays, maps and pointers)
-Reach(t) == CASE t = "A.U" -> <<"A.T">> [] t = "A.V" -> <<"B.T">> [] t = "A.V1" -> <<"A.T">> [] OTHER -> <<>>
+NameTypes == {"A.T", "B.T", "Anon1", "Anon2", "A.U", "A.V", "A.V1", "A.W"}
+GraphGroups == {{"GA", "GB", "Anon4"}, {"HA", "HB", "HC"}, {"MA", "MB"}, {"EO", "EP", "A.EI", "EQ", "B.EI"}, {"Anon1", "Anon2", "Anon3"}}
+GraphTypes == UNION GraphGroups
+Types == NameTypes \cup GraphTypes
+AnonTypes == {"Anon1", "Anon2", "Anon3", "Anon4"}
+Short(t) == CASE t \in {"A.T", "B.T"} -> "T" [] t \in AnonTypes -> "" [] t = "A.U" -> "U" [] t = "A.V" -> "V"
+              [] t = "A.V1" -> "V1" [] t = "A.W" -> "W" [] t \in {"A.EI", "B.EI"} -> "EI" [] OTHER -> t
+Full(t) == IF t \in AnonTypes THEN "/" ELSE t
+\* struct types reached through the member fields of t (element types of slices, arrays, maps and pointers)
+Reach(t) == CASE t = "A.U" -> <<"A.T">> [] t = "A.V" -> <<"B.T">> [] t = "A.V1" -> <<"A.T">>
+              [] t = "MA" -> <<"MB">> [] t = "MB" -> <<"MA">> [] t = "Anon3" -> <<"Anon1">> [] OTHER -> <<>>
+\* struct types embedded in t (by value or by pointer)
+Emb(t) == CASE t = "GA" -> <<"GB">> [] t = "GB" -> <<"GA">> [] t = "HA" -> <<"HB">> [] t = "HB" -> <<"HC">> [] t = "HC" -> <<"HA">>
+            [] t = "EO" -> <<"A.EI">> [] t = "EP" -> <<"A.EI">> [] t = "EQ" -> <<"B.EI">> [] t = "Anon4" -> <<"GA">> [] OTHER -> <<>>
+\* the members t declares itself
+Own(t) == CASE t = "A.T" -> {"X", "Name"} [] t = "B.T" -> {"Y", "Flag"} [] t = "Anon1" -> {"P", "Q"} [] t = "Anon2" -> {"R", "S"}
+            [] t = "A.U" -> {"Ts", "N"} [] t \in {"A.V", "A.V1"} -> {"P", "N"} [] t = "A.W" -> {"I", "N"}
+            [] t = "GA" -> {"A1", "A2"} [] t = "GB" -> {"B1", "B2"} [] t = "HA" -> {"Ha"} [] t = "HB" -> {"Hb"} [] t = "HC" -> {"Hc"}
+            [] t = "MA" -> {"Bs", "N"} [] t = "MB" -> {"As", "S"} [] t = "EO" -> {"O"} [] t = "EP" -> {"P"} [] t = "A.EI" -> {"I1", "I2"}
+            [] t = "B.EI" -> {"J1", "J2"} [] t = "EQ" -> {"Q"} [] t = "Anon3" -> {"In", "Z"} [] t = "Anon4" -> {"K"}
 \* the type name the create key of an interface-typed field carries in decomposed data (A.W holds an A.T)
 CreateRef(t) == IF t = "A.W" THEN <<"A.T">> ELSE <<>>
-Names == {"T", "", "U", "V", "V1", "W", "/"} \cup Types
-Cached(t) == KeyedBy = "short" \/ t \notin {"Anon1", "Anon2"}
+Names == {"T", "", "U", "V", "V1", "W", "/", "EI"} \cup Types
+Cached(t) == KeyedBy = "short" \/ t \notin AnonTypes
 LookupKey(t) == IF KeyedBy = "short" THEN Short(t) ELSE Full(t)
 
-RECURSIVE Register(_, _), RegisterAll(_, _, _)
-\* registerComposer: by full name; enters short and full; walks the fields, skipping those whose lookup key is present
-Register(r, t) == IF ~Cached(t) THEN RegisterAll(r, Reach(t), 1)
-                  ELSE IF r[Full(t)] # "none" THEN r
-                  ELSE RegisterAll([r EXCEPT ![Short(t)] = t, ![Full(t)] = t], Reach(t), 1)
-RegisterAll(r, ts, i) == IF i > Len(ts) THEN r
-                         ELSE RegisterAll(IF r[LookupKey(ts[i])] # "none" THEN r ELSE Register(r, ts[i]), ts, i + 1)
+\* ---- the member index.  Specification: own members and the members of the embedded types, an embedded type that is t
+\* itself or one of the types being walked (the embedding context) offers nothing further.
+RECURSIVE Members(_, _), MembersEmb(_, _, _, _)
+Members(t, embedding) == Own(t) \cup MembersEmb(t, embedding, Emb(t), 1)
+MembersEmb(t, embedding, es, i) == IF i > Len(es) THEN {}
+                                   ELSE (IF es[i] = t \/ es[i] \in embedding THEN {} ELSE Members(es[i], embedding \cup {t}))
+                                        \cup MembersEmb(t, embedding, es, i + 1)
+\* the same walk over a table m (type -> <<>> or <<index>>) that is consulted first and filled on return when IndexMemo = "bytype"
+EmptyMemo == [t \in Types |-> <<>>]
+RECURSIVE IndexM(_, _, _), IndexEmb(_, _, _, _, _)
+IndexM(m, t, embedding) == IF IndexMemo = "bytype" /\ m[t] # <<>> THEN [m |-> m, ix |-> m[t][1]]
+                           ELSE LET x == IndexEmb([m |-> m, ix |-> Own(t)], t, embedding, Emb(t), 1) IN
+                                [m |-> IF IndexMemo = "bytype" THEN [x.m EXCEPT ![t] = <<x.ix>>] ELSE x.m, ix |-> x.ix]
+IndexEmb(acc, t, embedding, es, i) ==
+    IF i > Len(es) THEN acc
+    ELSE IF es[i] = t \/ es[i] \in embedding THEN IndexEmb(acc, t, embedding, es, i + 1)
+    ELSE LET x == IndexM(acc.m, es[i], embedding \cup {t}) IN IndexEmb([m |-> x.m, ix |-> acc.ix \cup x.ix], t, embedding, es, i + 1)
+IndexStep(s, t) == [s EXCEPT !.m = IndexM(s.m, t, {}).m]
 
-\* recomp into t: returns [r |-> registry afterwards, bad |-> <<>> or <<target, used>>]
-RECURSIVE Recomp(_, _), RecompAll(_, _, _)
-Recomp(r, t) == LET c == IF Cached(t) THEN r[LookupKey(t)] ELSE "none"
-                    r1 == IF c = "none" THEN Register(r, t) ELSE r
+\* a registry state s = [r |-> names -> type id, m |-> index table]
+RECURSIVE Register(_, _), RegisterAll(_, _, _)
+\* registerComposer: by full name; enters short and full; builds the index; walks ALL fields (members and embedded parts),
+\* skipping those whose lookup key is present
+Register(s, t) == IF ~Cached(t) THEN RegisterAll(IndexStep(s, t), Reach(t) \o Emb(t), 1)
+                  ELSE IF s.r[Full(t)] # "none" THEN s
+                  ELSE RegisterAll(IndexStep([s EXCEPT !.r = [s.r EXCEPT ![Short(t)] = t, ![Full(t)] = t]], t), Reach(t) \o Emb(t), 1)
+RegisterAll(s, ts, i) == IF i > Len(ts) THEN s
+                         ELSE RegisterAll(IF Cached(ts[i]) /\ s.r[LookupKey(ts[i])] # "none" THEN s ELSE Register(s, ts[i]), ts, i + 1)
+
+\* recomp into t: returns [s |-> registry state afterwards, bad |-> <<>> or <<target, used>> or <<"index", type>>]
+\* (seen: the walk over member TYPES ends where a type recurs; the code walks the finite value)
+RECURSIVE Recomp(_, _, _), RecompAll(_, _, _, _)
+Recomp(s, t, seen) ==
+                LET c == IF Cached(t) THEN s.r[LookupKey(t)] ELSE "none"
+                    s1 == IF c = "none" THEN Register(s, t) ELSE s
                     used == IF c = "none" THEN t ELSE c
-                    sub == RecompAll(r1, Reach(t), 1)
+                    ixUsed == IF IndexMemo = "bytype" /\ s1.m[used] # <<>> THEN s1.m[used][1] ELSE Members(used, {})
+                    sub == IF t \in seen THEN [s |-> s1, bad |-> <<>>] ELSE RecompAll(s1, Reach(t), 1, seen \cup {t})
                     \* create-key lookup (always by the name found in the data, i.e. the short name): an unregistered
                     \* name leaves a map, a registered one builds that type
                     ck == IF CreateRef(t) = <<>> THEN <<>>
-                          ELSE LET want == CreateRef(t)[1]  got == sub.r[Short(want)] IN
+                          ELSE LET want == CreateRef(t)[1]  got == sub.s.r[Short(want)] IN
                                IF got = "none" THEN <<>> ELSE <<"createkey", got>>
-                IN IF used # t THEN [r |-> r1, bad |-> <<t, used>>]
-                   ELSE IF sub.bad # <<>> THEN sub ELSE [r |-> sub.r, bad |-> ck]
-RecompAll(r, ts, i) == IF i > Len(ts) THEN [r |-> r, bad |-> <<>>]
-                       ELSE LET x == Recomp(r, ts[i]) IN IF x.bad # <<>> THEN x ELSE RecompAll(x.r, ts, i + 1)
+                IN IF used # t THEN [s |-> s1, bad |-> <<t, used>>]
+                   ELSE IF ixUsed # Members(t, {}) THEN [s |-> s1, bad |-> <<"index", t>>]
+                   ELSE IF sub.bad # <<>> THEN sub ELSE [s |-> sub.s, bad |-> ck]
+RecompAll(s, ts, i, seen) == IF i > Len(ts) THEN [s |-> s, bad |-> <<>>]
+                             ELSE LET x == Recomp(s, ts[i], seen) IN IF x.bad # <<>> THEN x ELSE RecompAll(x.s, ts, i + 1, seen)
 
 EmptyReg == [n \in Names |-> "none"]
-VARIABLES reg, hist, outs
-vars == <<reg, hist, outs>>
-Init == reg = EmptyReg /\ hist = <<>> /\ outs = <<>>
-Present(t) == /\ Len(hist) < MaxHist
-              /\ LET x == Recomp(reg, t) IN
-                 /\ reg' = x.r /\ hist' = Append(hist, t) /\ outs' = Append(outs, x.bad)
+EmptyState == [r |-> EmptyReg, m |-> EmptyMemo]
+\* histories (prefix closed): over the name family up to MaxHist; over the graph family up to GraphLen, and one longer
+\* inside one group of related types
+Admissible(h) == \/ Len(h) <= MaxHist /\ \A i \in DOMAIN h : h[i] \in NameTypes
+                 \/ /\ \A i \in DOMAIN h : h[i] \in GraphTypes
+                    /\ \/ Len(h) <= GraphLen
+                       \/ Len(h) <= GraphLen + 1 /\ \E g \in GraphGroups : \A i \in DOMAIN h : h[i] \in g
+VARIABLES reg, memo, hist, outs
+vars == <<reg, memo, hist, outs>>
+Init == reg = EmptyReg /\ memo = EmptyMemo /\ hist = <<>> /\ outs = <<>>
+Present(t) == /\ Admissible(Append(hist, t))
+              /\ LET x == Recomp([r |-> reg, m |-> memo], t, {}) IN
+                 /\ reg' = x.s.r /\ memo' = x.s.m /\ hist' = Append(hist, t) /\ outs' = Append(outs, x.bad)
 Next == \E t \in Types : Present(t)
 Spec == Init /\ [][Next]_vars
 
-\* what a fresh recomposer does with t
-Fresh(t) == Recomp(EmptyReg, t).bad
+\* what a fresh recomposer (in a fresh process: nothing indexed yet) does with t
+Fresh(t) == Recomp(EmptyState, t, {}).bad
 HistoryFree == \A i \in 1..Len(outs) : outs[i] = Fresh(hist[i])
 \* ... for the targets without a create-key reference (a create key names a type by its short name by design)
 HistoryFreeStruct == \A i \in 1..Len(outs) : hist[i] # "A.W" => outs[i] = Fresh(hist[i])
 FreshIsOwn == \A t \in Types : Fresh(t) = <<>>
-TypeOK == \A n \in Names : reg[n] \in Types \cup {"none"}
+FreshIsOwnNames == \A t \in NameTypes : Fresh(t) = <<>>     \* (keyed by short name an anonymous member of an anonymous struct collides at once)
+TypeOK == /\ \A n \in Names : reg[n] \in Types \cup {"none"}
+          /\ \A t \in Types : memo[t] = <<>> \/ (Len(memo[t]) = 1 /\ memo[t][1] \subseteq Members(t, {}))
+\* the cut of an embedding cycle loses nothing that Go's promotion rule offers: the index of every type of a cycle holds the
+\* own members of every type of the cycle
+CycleComplete == /\ Members("GA", {}) = {"A1", "A2", "B1", "B2"} /\ Members("GB", {}) = {"A1", "A2", "B1", "B2"}
+                 /\ \A t \in {"HA", "HB", "HC"} : Members(t, {}) = {"Ha", "Hb", "Hc"}
+                 /\ Members("Anon4", {}) = {"K", "A1", "A2", "B1", "B2"}
 \* the registry never forgets: a full name once entered keeps its type
 Monotone == [][\A t \in Types : (reg[Full(t)] # "none") => (reg'[Full(t)] = reg[Full(t)])]_vars
 =============================================================================
